@@ -2,7 +2,7 @@
 //
 // Engine E2 (enumx): the full product
 //
-//	client-rate rotation (5) × sampler case (18) × path (19)
+//	client-rate rotation (5 quick / 8 thorough) × sampler case (18) × path (19)
 //
 // is executed on the REAL collect.InMemCollector (fix/collector, handler mode, fake clock, capturing
 // transmission). Every cell builds a fresh collector, runs one short history and evaluates the oracle on every
@@ -27,7 +27,8 @@
 //     stress-relief rate; later spans of that trace — through stress relief again or through the normal path
 //     after stress relief ended — use that recorded stress rate.
 //
-// Every span of a trace carries a DIFFERENT client rate (rotation through {0,1,2,7,2³¹−1}), so a rate taken
+// Every span of a trace carries a DIFFERENT client rate (rotation through {0,1,2,7,2³¹−1}; thorough adds 3, 65536,
+// 2³¹−2), so a rate taken
 // from a sibling span or from the trace's first span is visible.
 //
 // The random keep draw (rand.Intn(rate) in the rules and dynsampler-backed samplers) is owned: the process-global
@@ -489,7 +490,9 @@ func (c *cell) run(keptID, droppedID string) {
 		c.span(fx.Child, recorded, "stress-relief/trace-already-decided-by-stress-relief", true)
 	}
 	if pc.reload {
-		f.Reload(func(m *config.MockConfig) { m.GetSamplerTypeVal = &config.DeterministicSamplerConfig{SampleRate: reloadRate} })
+		f.Reload(func(m *config.MockConfig) {
+			m.GetSamplerTypeVal = &config.DeterministicSamplerConfig{SampleRate: reloadRate}
+		})
 		c.note(fmt.Sprintf("reload(deterministic %d)", reloadRate))
 	}
 	rl := ""
@@ -614,6 +617,9 @@ func (c *cell) check(s fx.Sent, e *exp, when string, rate uint, fields map[strin
 
 func main() {
 	r := ev.New("C04", "exploration")
+	if r.Thorough() {
+		clients = []uint{0, 1, 2, 3, 7, 65536, maxClient - 1, maxClient}
+	}
 	cases := samplerCases()
 	paths := pathCases()
 	k, d := true, false
